@@ -62,6 +62,9 @@ func propConfigs() map[string]*PropConfig {
 		Redirect: map[string]string{"github.com/cosmos72/gomacro/gls.GoID": "vhModelGoID", fp + "Comp).Expr": "vhModelExpr", fp + "Comp).Block": "vhModelBlock", fp + "Comp).Stmt": "vhModelStmt",
 			fp + "Comp).pushEnvIfLocalBinds": "vhModelPushEnv", fp + "Comp).popEnvIfLocalBinds": "vhModelPopEnv"},
 		Explain: "the real switchGotoMap / switchGotoSlice (per integer kind, symbolic case constants and tag value), Comp.If and Comp.For are executed; sub-expressions and sub-statements are replaced by models that emit marker statements, and the emitted code is run by the real executor"})
+	add(&PropConfig{ID: "C26", Prefix: "VH_C26_", StrBytes: 24, Sets: []HarnessSet{hfiles("base", "base/c26.go")},
+		Thorough: func(n string) bool { return strings.Contains(n, "_T_") },
+		Explain: "the real base.ReadMultiline runs on one input line = concrete prefix (each lexical mode and bracket depth) + symbolic bytes (all 256 values) + concrete suffix; the oracle is a reference lexical automaton over the same bytes"})
 	xrp := "(*github.com/cosmos72/gomacro/xreflect.xtype)."
 	add(&PropConfig{ID: "C34", Prefix: "VH_C34_", Sets: []HarnessSet{hfiles("xreflect", "xreflect/lib_xreflect.go", "xreflect/c34_gen.go")},
 		Redirect: map[string]string{xrp + "NumMethod": "vhModelNumMethod", xrp + "Method": "vhModelMethod", xrp + "GetMethods": "vhModelGetMethods"},
